@@ -77,12 +77,21 @@ def run(d, paths, cfg, trace=False, **kw):
         os.environ['CELL_TYPE_MAPPER_VERIF_TRACE'] = str(tdir)
     else:
         os.environ.pop('CELL_TYPE_MAPPER_VERIF_TRACE', None)
+    old_limit = None
+    if cfg.get('fd_headroom'):
+        import resource
+        old_limit = resource.getrlimit(resource.RLIMIT_NOFILE)
+        n_open = len(os.listdir('/proc/self/fd'))
+        resource.setrlimit(resource.RLIMIT_NOFILE, (min(old_limit[0], n_open + int(cfg['fd_headroom'])), old_limit[1]))
     try:
         with quiet():
             run_mapping(c, c['extended_result_path'], c['log_path'], c['hdf5_result_path'])
     except Exception as e:   # the mapper's own failure: an observation, not a harness error
         o.error = e
     finally:
+        if old_limit is not None:
+            import resource
+            resource.setrlimit(resource.RLIMIT_NOFILE, old_limit)
         if old is None:
             os.environ.pop('CELL_TYPE_MAPPER_VERIF_TRACE', None)
         else:
